@@ -277,11 +277,13 @@ PROPS = {
     },
     "C03": {
         "coq": "Properties/C03.v",
-        "level_text": "PARTIAL. Proved on the instruction-level model: C03_image_length (16 bytes per event then 16 per instruction), C03_preamble_then_tiling (DEF preamble from the scope, then the "
-                      "event table tiles the instructions contiguously in source order with exact indices/counts), C03_condition_block_writes_flag (non-empty, last instruction writes the event flag), "
-                      "C03_registers_within_files (8 tmp, 6 local, 16 report, 16 control, 6 implicit; encodable immediates), C03_opcodes_defined. The full byte-level statement "
-                      "(C03_full_statement: image_wf, an independent decoder, incl. temporaries read only after being written) is evaluated on every image portus produces in the streams, "
-                      "and every image of the dp stream is loaded by the real libccp.",
+        "level_text": "PROVED. C03_emitted_image_well_formed: for every source text and every list of compile-time overrides, if the compiler emits an image with fewer than 2^32 instructions "
+                      "(the event table stores 32-bit indices, as the real code's u32 casts do), the independent byte-level decoder image_wf accepts it: 16-byte records, DEF preamble of report/control "
+                      "registers initialised from immediates and no DEF elsewhere, events tiling the remaining instructions contiguously in source order, non-empty condition blocks whose last "
+                      "instruction writes implicit register 0, defined opcodes, writable result class, register indices inside the files, temporaries read only after being written in the same block. "
+                      "The proof goes through the character-level parser (no parsed name begins with __), the scope invariants of the declarations and overrides, and compile_expr/compile_flag/compile_body. "
+                      "The earlier component theorems (C03_image_length, C03_preamble_then_tiling, C03_condition_block_writes_flag, C03_registers_within_files, C03_opcodes_defined) remain. "
+                      "image_wf is also evaluated on every image portus produces in the streams, and every image of the dp stream is loaded by the real libccp.",
         "level_note": LANG_NOTE,
         "streams": ["limits", "compile"],
         "rule": "programs at and one beyond each register limit (15/16/17 report and control variables, 5/6/7 locals, 1..11 operator nodes in three shapes in statement and condition position), "
